@@ -74,6 +74,16 @@ func c01Cells(tier string) []Cell {
 						cells = append(cells, Cell{ID: k.ID()})
 					}
 
+					// A slow data source: every build takes longer than UpdateTTL. However long a build has been running, it is
+					// still THE build of its key.
+					if sc == "o" || sc == "f" {
+						k := c
+						k.Callout = false
+						k.Threads = [][]GOp{{{Key: 0}, {Key: 0}}, {{Key: 0}}}
+						k.Tags = []string{"stats", "log", "slow"}
+						cells = append(cells, Cell{ID: k.ID()})
+					}
+
 					// The bench/failover.go usage pattern: one key buffer reused for the next Get while the
 					// background build of the previous key may still be running, next to a plain Get of the second key.
 					if sc == "o" || sc == "f" {
